@@ -227,3 +227,109 @@ Print Assumptions C18_roundtrip_main_data_R.
 Print Assumptions C18_roundtrip_likelihood_nonvacuous.
 Print Assumptions C18_roundtrip_loglik_nonvacuous.
 Print Assumptions C18_roundtrip_loglik_same_vector_nonvacuous.
+
+(* ======================= tie to the source (gen/XmlGen.v is translated from pyhf on every run; proofs in TieXml.v) =======================
+   The hand model the theorems above are about IS what pyhf/writexml.py, pyhf/readxml.py and pyhf/compat.py say, function by function,
+   for every number record N (the reading of the python values is stated in the header of gen/XmlGen.v). *)
+Require PV.gen.XmlGen PV.TieXml.
+
+(* writexml._make_hist_name: "hist" + the non-empty parts joined by "_" + suffix *)
+Theorem C18_source_is_model_make_hist_name : forall c s m sfx, XmlGen.gen_make_hist_name c s m "hist" sfx = hist_name [c; s; m] sfx.
+Proof. exact TieXml.tie_make_hist_name. Qed.
+(* writexml._export_root_histogram: refuses a key that is present, stores the contents under the key otherwise *)
+Theorem C18_source_is_model_export_root_histogram : forall N f k d, XmlGen.gen_export_root_histogram N f k d = export_one N (inl f) (k, d).
+Proof. exact TieXml.tie_export_root_histogram. Qed.
+(* writexml.build_modifier: which attributes per modifier type, Val/Low/High of a NormFactor from the FIRST measurement, the absolute ->
+   relative conversion of staterror / shapesys with its nom <> 0 guard, which histogram lands under which key *)
+Theorem C18_source_is_model_build_modifier : forall N ws m c s d, XmlGen.gen_build_modifier N ws m c s d = build_modifier N ws c s d m.
+Proof. exact TieXml.tie_build_modifier. Qed.
+Theorem C18_source_is_model_build_sample : forall N ws s c, XmlGen.gen_build_sample N ws s c = build_sample N ws c s.
+Proof. exact TieXml.tie_build_sample. Qed.
+Theorem C18_source_is_model_build_data : forall N ws c,
+  (if XmlGen.lnonempty (w_obs N ws)
+   then match XmlGen.gen_build_data N (w_obs N ws) c with inl r => inl (Some (fst r), snd r) | inr e => inr e end
+   else inl (None, [])) = build_data N ws c.
+Proof. exact TieXml.tie_build_data. Qed.
+Theorem C18_source_is_model_build_channel : forall N ws ch, XmlGen.gen_build_channel N ws ch (w_obs N ws) = build_channel N ws ch.
+Proof. exact TieXml.tie_build_channel. Qed.
+(* writexml.build_measurement: Lumi, LumiRelErr = sigma / lumi, the ROOT names of the constant parameters, POI *)
+Theorem C18_source_is_model_build_measurement : forall N m mt, XmlGen.gen_build_measurement N m mt = build_measurement N mt m.
+Proof. exact TieXml.tie_build_measurement. Qed.
+(* compat.interpret_rootname as process_measurements uses it (name of a scalar parameter, ValueError otherwise): prefixes alpha_ / gamma_, Lumi *)
+Theorem C18_source_is_model_interpret_rootname : forall rxg s,
+  interp s = match XmlGen.gen_interpret_rootname rxg s with
+             | inl i => if XmlGen.tri_truth (XmlGen.i_is_scalar i) then inl (XmlGen.i_name i) else inr ENonScalar
+             | inr e => inr (if XmlGen.starts_with "gamma_" s then ENonScalar else e)
+             end.
+Proof. exact TieXml.tie_interpret_rootname. Qed.
+(* readxml.import_root_histogram: which key is looked up (on files none of whose keys starts with "/": all the writer produces) ... *)
+Theorem C18_source_is_model_root_lookup : forall N f name, TieXml.keys_ok N f -> XmlGen.gen_root_lookup N f name = lookup_hist N f name.
+Proof. exact TieXml.tie_root_lookup. Qed.
+(* ... and when the file is opened again: the __FILECACHE__ logic is open_file of XmlCache.v (the signature test of the repaired code) *)
+Theorem C18_source_is_model_import_root_histogram : forall N (X : Type) (st : state X (rootfile N)) dir name,
+  XmlGen.gen_import_root_histogram N X st dir name =
+  match open_file X (rootfile N) st dir with
+  | None => inr ENoFile
+  | Some (c, cache') => match XmlGen.gen_root_lookup N c name with inl v => inl (v, cache') | inr e => inr e end
+  end.
+Proof. exact TieXml.tie_import_root_histogram. Qed.
+(* readxml.process_sample: modifier type per element, relative -> absolute conversion, NormFactor configs collected *)
+Theorem C18_source_is_model_process_sample : forall N file cname xs, TieXml.keys_ok N file ->
+  XmlGen.gen_process_sample N file cname xs = process_sample N file cname xs.
+Proof. exact TieXml.tie_process_sample. Qed.
+Theorem C18_source_is_model_process_data : forall N file h, TieXml.keys_ok N file -> XmlGen.gen_process_data N file h = lookup_hist N file h.
+Proof. exact TieXml.tie_process_data. Qed.
+Theorem C18_source_is_model_process_channel : forall N file xc, TieXml.keys_ok N file ->
+  XmlGen.gen_process_channel N file xc = process_channel N file xc.
+Proof. exact TieXml.tie_process_channel. Qed.
+(* readxml.process_measurements: lumi config (auxdata, sigmas = relerr * lumi, inits, bounds), ParamSetting Const through interpret_rootname,
+   the channel-level configs merged into every measurement - up to which of python's two ValueErrors a gamma_ name raises *)
+Theorem C18_source_is_model_process_measurements : forall N rxg doc others,
+  TieXml.map_err TieXml.verr (XmlGen.gen_process_measurements N rxg doc others)
+  = TieXml.map_err TieXml.verr (mapM (process_measurement N others) (x_meas N doc)).
+Proof. exact TieXml.tie_process_measurements. Qed.
+(* readxml.dedupe_parameters: python compares every config of a name with the first of that name, the hand model every pair of equal names;
+   N any number record whose equality test decides equality (both instances used: Qc_eqb_spec, R_eqb_spec of XmlInst.v) *)
+Theorem C18_source_is_model_dedupe_parameters : forall N, (forall a b : V N, neqb N a b = true <-> a = b) ->
+  forall l, XmlGen.gen_dedupe_parameters N l = dedupe N l.
+Proof. exact TieXml.tie_dedupe_parameters. Qed.
+Theorem C18_source_is_model_dedupe_parameters_Qc : forall l, XmlGen.gen_dedupe_parameters QcNum l = dedupe QcNum l.
+Proof. exact TieXml.tie_dedupe_parameters_Qc. Qed.
+(* compat.paramset_to_rootnames (no model of its own in Xml.v: the writer has its own prefix table): what it returns, and that interpret_rootname
+   (the hand model interp) inverts it on scalar parameter sets under the guard of C18_name_guard *)
+Theorem C18_source_is_model_paramset_to_rootnames : forall name sc co n,
+  XmlGen.gen_paramset_to_rootnames name sc co n = TieXml.rootnames_spec name sc co n.
+Proof. exact TieXml.tie_paramset_to_rootnames. Qed.
+Theorem C18_paramset_rootname_inverted : forall name co n,
+  name = "lumi"%string \/ (co = true /\ name <> ""%string) \/
+  (co = false /\ strip_prefix "alpha_" name = None /\ strip_prefix "gamma_" name = None /\ name <> "Lumi"%string) ->
+  match XmlGen.gen_paramset_to_rootnames name true co n with inl rn => interp rn = inl name | inr _ => False end.
+Proof. exact TieXml.paramset_rootname_inverted. Qed.
+(* readxml.clear_filecache is the Clear step of the state machine *)
+Theorem C18_source_is_model_clear_filecache : forall N (X R : Type) (rd : X -> rootfile N -> R) nofile opn st,
+  XmlGen.gen_clear_filecache N X st = step X (rootfile N) R rd nofile opn st (Clear X (rootfile N)).
+Proof. exact TieXml.tie_clear_filecache. Qed.
+(* the hypothesis keys_ok is met by a written file *)
+Theorem C18_source_is_model_nonvacuous : exists x f, write QcNum demo_ws = inl (x, f) /\ TieXml.keys_ok QcNum f.
+Proof. exact TieXml.ex_keys_ok. Qed.
+
+Print Assumptions C18_source_is_model_make_hist_name.
+Print Assumptions C18_source_is_model_export_root_histogram.
+Print Assumptions C18_source_is_model_build_modifier.
+Print Assumptions C18_source_is_model_build_sample.
+Print Assumptions C18_source_is_model_build_data.
+Print Assumptions C18_source_is_model_build_channel.
+Print Assumptions C18_source_is_model_build_measurement.
+Print Assumptions C18_source_is_model_interpret_rootname.
+Print Assumptions C18_source_is_model_root_lookup.
+Print Assumptions C18_source_is_model_import_root_histogram.
+Print Assumptions C18_source_is_model_process_sample.
+Print Assumptions C18_source_is_model_process_data.
+Print Assumptions C18_source_is_model_process_channel.
+Print Assumptions C18_source_is_model_process_measurements.
+Print Assumptions C18_source_is_model_dedupe_parameters.
+Print Assumptions C18_source_is_model_dedupe_parameters_Qc.
+Print Assumptions C18_source_is_model_paramset_to_rootnames.
+Print Assumptions C18_paramset_rootname_inverted.
+Print Assumptions C18_source_is_model_clear_filecache.
+Print Assumptions C18_source_is_model_nonvacuous.
